@@ -79,6 +79,7 @@ struct World {
     int64_t clock_step_us = 137;
     std::map<std::string, FileNode> files;  // includes directories
     std::map<std::string, SockNode> socks;
+    long long fsize_limit = -1;             // RLIMIT_FSIZE of the process in bytes (-1 unlimited): a write beyond it is cut there, one starting at it raises SIGXFSZ and fails with EFBIG
     int stdout_kind = 0;                    // 0 tty (line buffered), 1 pipe, 2 file (fully buffered), 3 descriptors 1 and 2 are closed (daemon)
     bool has_ctty = true;                   // /dev/tty can be opened
     int64_t disk_free = -1;                 // bytes that regular-file writes may still add (-1 unlimited)
@@ -130,6 +131,7 @@ struct Op {
     int policy = 0;                         // 0 random walk, 1 PCT, 2 long park
     int pct_d = 1;
     uint64_t sched_seed = 0;
+    int app_opens = 0;                      // Batch: a further thread of the caller (not inside the library) opens and closes that many descriptors of its own
     std::vector<int> schedule;              // explicit choices (replay); empty = generate from sched_seed
     bool have_schedule = false;
     // ForkExec: thread B runs `ex`; the forking thread forks when B is at scheduling point fork_point; the child runs child_ex
@@ -165,7 +167,7 @@ struct Ev {
     std::string data;                       // bytes written / sent
     int mark = 0;                           // 1 BLOCKS, 2 SIGPIPE, 4 fault injected here
 };
-enum { MARK_BLOCKS = 1, MARK_SIGPIPE = 2, MARK_FAULT = 4 };
+enum { MARK_BLOCKS = 1, MARK_SIGPIPE = 2, MARK_FAULT = 4, MARK_SIGXFSZ = 8 };
 
 struct Snap {                               // process residue snapshot
     std::vector<int> sim_fds;               // open simulated descriptors
@@ -218,6 +220,7 @@ struct RunResult {
     int sched_points = 0;
     int max_overlap = 0;                    // max number of threads simultaneously inside the library
     int blocked_on_mutex = 0;
+    std::string app_damage;                 // Batch with an application thread: what happened to a descriptor of that thread
     J child;                                // ForkExec: what the child reported
     std::map<std::string, long> counters;   // probes and fault-fire counts
     J cli_conf2;                            // CliConf round trip: second report
